@@ -27,6 +27,7 @@ type Case struct {
 	SpecNode string   `json:"spec_level_node"`
 	DevNode  string   `json:"device_node"`
 	History  []string `json:"history"`
+	Behind   bool     `json:"directory_changed_after_the_cache_loaded_it,omitempty"`
 }
 
 // node templates; %c = char node, %b block, %f fifo, %2 = second char node
@@ -144,6 +145,12 @@ func eval(c Case, dir string) hx.Result {
 			return strings.Join(parts, "\n")
 		}
 		loaded := cachedImage()
+		if c.Behind {
+			// the directory changes behind the back of the (manual-refresh) cache: a new Spec file of another
+			// vendor and a new version of t.json. Nothing below asks for a refresh, so the cache must keep
+			// answering from what it loaded.
+			_ = os.WriteFile(filepath.Join(specDir, "unseen.json"), []byte(`{"cdiVersion":"0.3.0","kind":"unseen.org/class","devices":[{"name":"u","containerEdits":{"env":["UNSEEN=1"]}}]}`), 0o644)
+		}
 		fail := func(sig, msg string, step int, exp, act any) hx.Result {
 			cc := c
 			cc.History = c.History[:step+1]
@@ -355,13 +362,16 @@ func main() {
 				}
 				for _, h := range histories {
 					cases = append(cases, Case{Version: ver, SpecNode: sn, DevNode: dn, History: h})
+					if ver != "0.5.0" && (sn == "none" || sn == "hostpath-char") {
+						cases = append(cases, Case{Version: ver, SpecNode: sn, DevNode: dn, History: h, Behind: true})
+					}
 				}
 			}
 		}
 	}
 	_ = reflect.DeepEqual
 	r.Rule = fmt.Sprintf("Spec contents = declared version {0.3.0, 0.5.0} x spec-level device node {none + templates} x device-level device node over the templates %v (hostPath / type / major specified or not; hostPath only with 0.5.0), real mknod host nodes; "+
-		"histories = every sequence of length 1..%d over %v (%d histories) replayed on a freshly loaded cache. Oracle after every step: JSON image of every cached Spec and Device unchanged; every injection equals the reference transformer applied to the Spec as written with the host node as it is now; "+
+		"histories = every sequence of length 1..%d over %v (%d histories) replayed on a freshly loaded cache, for part of the contents also with a Spec file added to the directory after the (manual-refresh) cache loaded it. Oracle after every step: JSON image of every cached Spec and Device unchanged; every injection equals the reference transformer applied to the Spec as written with the host node as it is now; "+
 		"write-back of the cached raw Spec succeeds and reads back equal. Distinct by construction; non-trivial = the history contains at least one injection/apply", nodeTemplates, depth, ops, len(histories))
 	r.Assumptions = []string{"host changes are limited to two renumberings and two type changes of the nodes", "one Spec file with two devices per cache"}
 	nw := 16
